@@ -401,6 +401,89 @@ func dfs(cfg Config, maxSpur, maxRuns int) int {
 	return runs
 }
 
+// coarse enumerates the interleavings at OPERATION granularity: pick an enabled
+// thread and let it run until its current call returns or it cannot go on (parked, or
+// waiting for a mutex); repeat.  All orders are tried, and both choices of the waiter
+// a Signal wakes.  These are the "back-to-back" histories (several sleepers, then
+// several releases/notifies in a row) that a truncated fine-grained DFS reaches late.
+func coarse(cfg Config) int {
+	n := 0
+	var rec func(prefix [][2]int)
+	rec = func(prefix [][2]int) {
+		r := start(cfg)
+		for _, st := range prefix {
+			if !r.step(st[0], st[1]) {
+				panic(fmt.Sprintf("coarse replay diverged: %v %v", cfg, prefix))
+			}
+		}
+		if r.s.EnabledMask() == 0 || len(prefix) > 300 {
+			end := ""
+			if r.s.EnabledMask() != 0 {
+				end = "cut"
+			}
+			r.finish(end)
+			r.emit()
+			r.oracle()
+			n++
+			return
+		}
+		en := r.s.EnabledMask()
+		var exts [][][2]int
+		for ti := range r.s.Threads {
+			if en&(1<<uint(ti)) == 0 {
+				continue
+			}
+			for choice := 0; choice < 2; choice++ {
+				// run thread ti to the end of its current operation
+				r2 := start(cfg)
+				for _, st := range prefix {
+					r2.step(st[0], st[1])
+				}
+				doneBefore := 0
+				for _, o := range r2.ops[ti] {
+					if o.ret >= 0 {
+						doneBefore++
+					}
+				}
+				usedChoice := false
+				for k := 0; k < 60; k++ {
+					t := r2.s.Threads[ti]
+					if !r2.s.Enabled(t) {
+						break
+					}
+					c := 0
+					if t.Kind == vsched.KSignal && len(t.C.Waiters) > 1 {
+						c = choice
+						usedChoice = true
+					}
+					r2.step(ti, c)
+					d := 0
+					for _, o := range r2.ops[ti] {
+						if o.ret >= 0 {
+							d++
+						}
+					}
+					if d > doneBefore {
+						break
+					}
+				}
+				ext := append([][2]int{}, r2.sched...)
+				r2.finish("cut")
+				if choice == 1 && !usedChoice {
+					continue // no Signal with several waiters on this path: same as choice 0
+				}
+				exts = append(exts, ext)
+			}
+		}
+		r.finish("cut")
+		for _, e := range exts {
+			rec(e)
+		}
+	}
+	rec(nil)
+	return n
+}
+
 func randomRun(cfg Config, rng *rand.Rand, maxSpur int) *run {
 	r := start(cfg)
 	end := ""
@@ -563,7 +646,26 @@ func TestVerif(t *testing.T) {
 		systematic("notify", 2, 2, "WSB", []uint32{0}, func(c Config) { total += dfs(c, 0, 20) })
 		systematic("notify", 3, 1, "WSB", []uint32{0, 0xffffffff}, func(c Config) { total += dfs(c, 1, 40) })
 	}
-	out.Encode(map[string]any{"kind": "stat", "dfs_runs": total})
+	// always explored, at operation granularity: several sleepers and several
+	// releases / notifications in a row (every sleeper must be woken)
+	ncoarse := 0
+	for _, c := range []Config{
+		{M: "sema", Init: 0, Progs: []string{"A", "A", "RR"}},
+		{M: "sema", Init: 0, Progs: []string{"A", "A", "R", "R"}},
+		{M: "sema", Init: 1, Progs: []string{"AR", "AR", "AR"}},
+		{M: "notify", Init: 0, Progs: []string{"W", "W", "SS"}},
+		{M: "notify", Init: 0, Progs: []string{"W", "W", "S", "S"}},
+		{M: "notify", Init: 0, Progs: []string{"W", "W", "W", "B"}},
+		{M: "notify", Init: 0xffffffff, Progs: []string{"W", "W", "SB"}},
+	} {
+		k := coarse(c)
+		classes[fmt.Sprintf("coarse/%s/%v", c.M, c.Progs)] += k
+		ncoarse += k
+	}
+	if tier == "thorough" {
+		ncoarse += coarse(Config{M: "sema", Init: 0, Progs: []string{"A", "A", "A", "RRR"}})
+	}
+	out.Encode(map[string]any{"kind": "stat", "dfs_runs": total, "coarse_runs": ncoarse})
 	for i := 0; i < nRandom; i++ {
 		r := randomRun(randomConfig(rng), rng, 2)
 		r.emit()
